@@ -67,6 +67,11 @@ def _cases_task(task):
         kw = {}
         if rng.random() < 0.1:
             kw["cn_max"] = rng.choice([2, 3])
+        if rng.random() < 0.3:
+            # non-default weights of the documented objective (the stage must use the profile's values, not constants)
+            kw.update(rng.choice([{"cn_diff": 5.0}, {"cn_diff": 20.0}, {"cn_fit": 0.5}, {"cn_fit": 2.0}, {"cn_parsimony": 0.25},
+                                  {"cn_parsimony": 1.0}, {"cn_fusion_left": 0.1}, {"cn_fusion_left": 1.0}, {"cn_fusion_right": 1.0},
+                                  {"cn_fusion_right": 0.1}, {"cn_pce_penalty": 1.0}, {"cn_pce_penalty": 4.0}]))
         prof = _profile(gap=gap, **kw)
         fs_raw, fs = None, None
         fus = [n_ for n_, c in configs.items() if c.kind.name in ("LEFT_FUSION", "RIGHT_FUSION")]
@@ -227,8 +232,13 @@ def run(ctx):
             ctx.undecided += 1
             continue
         m = meta[k]
-        ctx.violation(clause, {"stage": "cn", "clause": clause, "gene": m["gene"].split("/")[0]}, m,
-                      f"case {k}: M={m['M']} gap={m['gap']} cov={m['region_cov']} reported={m['result']}")
+        fp = {"stage": "cn", "clause": clause, "gene": m["gene"].split("/")[0]}
+        if clause in ("UnreportedContainsReported", "Optimal", "NoneReportedButAdmissibleExists"):
+            # attribution: the SAME model with its depth equations in another order (the dictionary order of the region
+            # depths; no aldy logic differs) - if that run satisfies the spec, the backend's result depends on the row order
+            # of the model, i.e. it returned a non-optimal point as OPTIMAL in one of them (see C05's known finding)
+            fp["same_model_other_row_order_is_accepted"] = _other_order_accepted(ctx, k, m)
+        ctx.violation(clause, fp, m, f"case {k}: M={m['M']} gap={m['gap']} cov={m['region_cov']} reported={m['result']}")
     # ---- routes
     rr = route_rows(rng, quick)
     n0 = len(rr)
@@ -247,6 +257,29 @@ def run(ctx):
             continue
         row = [r for r in rr if r["id"] == k][0]
         ctx.violation(clause, {"stage": "cn-route", "clause": clause, "route": row["route"]}, row, f"route case {k}: {row}")
+
+
+def _other_order_accepted(ctx, cid, m):
+    from aldy.cn import solve_cn_model
+
+    gname, genome = m["gene"].split("/")
+    g = genes.load(gname, genome)
+    fs_raw = {n: tuple(v) for n, v in (m["fusion_support"] or {}).items()} or None
+    fs = {n: ((a / b) if b else 0.0) for n, (a, b) in fs_raw.items()} if fs_raw else None
+    rows = []
+    for tag, keys in (("sorted", sorted(m["region_cov"])), ("reversed", list(m["region_cov"])[::-1])):
+        rc = {r: tuple(m["region_cov"][r]) for r in keys}
+        prof = _profile(gap=m["gap"], **m.get("params", {}))
+        try:
+            with aldyenv.quiet_stderr():
+                res = solve_cn_model(g, prof, dict(g.cn_configs), m["M"], rc, "any", fusion_support=fs)
+        except Exception:
+            continue
+        rows.append(project.cn_case(f"{cid}~{tag}", g, prof, dict(g.cn_configs), m["M"], rc, fs, res, "", fs_raw))
+    if not rows:
+        return False
+    rej = {r[0] for r in ctx.trace_batch("trace/CNTrace", "trace/CNTrace.cfg", rows, label="CNTrace(attribution)")}
+    return any(r["id"] not in rej for r in rows)
 
 
 def replay(path):
